@@ -342,6 +342,7 @@ func (t *HHWheelTimer) expireNear() {
 
 		// decide under the guard: a cancelled timer (its cancel request is still
 		// on the way) is dropped, a one-shot timer leaves the table
+		verifYield(t, "decide", node.id)
 		t.guard.Lock()
 		var cancelled = node.cancelled
 		if !cancelled && node.period <= 0 {
@@ -353,6 +354,7 @@ func (t *HHWheelTimer) expireNear() {
 			continue
 		}
 
+		verifYield(t, "send", node.id)
 		t.C <- node.r // trigger
 
 		// schedule again
